@@ -42,8 +42,12 @@ def r_nocell(F, cfg):
     return R
 
 
+FPENV_FNS = {"_mm_setcsr", "_mm_getcsr", "_fxrstor", "_fxrstor64", "_xrstor", "_xrstor64", "_xrstors", "_xrstors64",
+             "fesetround", "fesetenv", "feupdateenv", "feholdexcept", "_controlfp", "_control87"}
+
+
 def r_nostatic(F, cfg):
-    R = Result("R-NOSTATIC", "no mutable / non-Freeze / thread-local static")
+    R = Result("R-NOSTATIC", "no mutable / non-Freeze / thread-local static; no access to the per-thread FP control state; no inline asm")
     for s in F.statics:
         w = "%s:%s" % (s["file"], s["l"])
         if s["mut"]:
@@ -65,6 +69,16 @@ def r_nostatic(F, cfg):
                 c = F.callee_of(node)
                 if c and ("thread::LocalKey" in c["p"] or "thread::local::LocalKey" in c["p"] or "thread::local_impl" in c["p"]):
                     R.violation("localkey:%s" % b.name, b.where(node), "use of a thread_local! key: " + c["p"])
+                # the floating-point environment (MXCSR: rounding mode, flush-to-zero, denormals-are-zero) is hidden
+                # per-thread state: writing it makes later results depend on which thread ran what before, reading it
+                # makes results depend on it
+                if c and not c.get("local", True):
+                    last = c["p"].rsplit("::", 1)[-1]
+                    if last in FPENV_FNS or last.startswith("_MM_SET_") or last.startswith("_MM_GET_"):
+                        R.violation("fpenv:%s:%s" % (b.name, last), b.where(node),
+                                    "%s touches the per-thread floating-point control state (%s): results then depend on thread history" % (b.name, last))
+            if node["k"] == "asm":
+                R.violation("asm:%s" % b.name, b.where(node), "%s contains inline assembly (can read or write arbitrary hidden state)" % b.name)
     R.metric("statics", len(F.statics))
     R.metric("mir_nodes_scanned", n)
     R.instances += 1  # the crate-wide scan itself
